@@ -970,6 +970,26 @@ def rule_maperr(ctx, sig, body, arg):
     return sig, body
 
 
+def rule_fmtvalin(ctx, sig, body, arg):
+    """@rule fmtvalin <call-prefix> <Type>..: as fmtval, the format! is the first one inside the argument list of the call that
+    starts with <call-prefix> (e.g. `results.insert(`), whatever its literal is"""
+    parts = arg.split()
+    prefix = parts[0]
+    pat = re.compile(r'\s*'.join(re.escape(x) for x in re.findall(r'\w+|[^\w\s]', prefix)))
+    m = next((m for m in pat.finditer(body) if not _in_comment_or_string(body, m.start())), None)
+    if not m:
+        raise RuleError(f'no `{prefix}`')
+    toks = tokenize(body)
+    ct = code_tokens(toks)
+    open_i = next(k for k, t in enumerate(ct) if t.end == m.end())
+    close_pos = ct[match_close(ct, open_i)].pos
+    calls = _macro_calls(body, 'format')
+    for n, (start, end, inner) in enumerate(calls):
+        if m.end() <= start < close_pos:
+            return rule_fmtval(ctx, sig, body, ' '.join([str(n + 1)] + parts[1:]))
+    raise RuleError(f'no format! inside `{prefix}..)`')
+
+
 def rule_fmtvallit(ctx, sig, body, arg):
     """@rule fmtvallit <literal> <Type>..: as fmtval, the format! is selected by its literal instead of its position"""
     parts = arg.split()
